@@ -12,9 +12,15 @@
 (*           name : base name, ext : ".go" | "_test.go" | anything else,    *)
 (*           pkg  : name in the package clause (irrelevant for the result), *)
 (*           hdr  : comment lines above the package clause,                 *)
+(*           imp  : comment lines on top of the import declaration (no      *)
+(*                  import declaration when empty),                         *)
+(*           text : [eol: "lf" | "crlf", bom: 0 | 1, nonl: 0 | 1] line ends,*)
+(*                  byte-order mark, no newline at the end of the file,     *)
 (*           decls: sequence of top-level declarations]                     *)
 (*   decl = [kind : "func" | "method" | "var" | "varfunc" | "type" |        *)
 (*                  "iface" | "const",  name,                               *)
+(*           recv : "" | "T" | pointer form "( *T)" written without the     *)
+(*                  blank: receiver of a method,                            *)
 (*           doc  : comment lines directly above the declaration,           *)
 (*           body : comment lines inside it, tl : comment on its last line, *)
 (*           ta   : comment lines right below it]                           *)
@@ -53,34 +59,38 @@ Attached(doc) == LET Bs == {i \in 1..Len(doc) : doc[i][1] = "B"}
 Annotations(doc) == SelectSeq(Attached(doc), LAMBDA ln : ln[1] = "R")
 
 IsSource(f) == f.ext = ".go"                     \* Go source that is not a test file
-\* one entry per annotation of a function declaration, in source order
-DeclEntries(dir, d) == IF d.kind = "func"
-                       THEN LET a == Annotations(d.doc) IN [i \in 1..Len(a) |-> <<a[i][2], Dst(dir, d.name)>>]
-                       ELSE <<>>
-RECURSIVE ConcatDecls(_, _, _)
-ConcatDecls(dir, ds, i) == IF i > Len(ds) THEN <<>> ELSE DeclEntries(dir, ds[i]) \o ConcatDecls(dir, ds, i + 1)
-FileEntries(f) == IF IsSource(f) THEN ConcatDecls(f.dir, f.decls, 1) ELSE <<>>
-
-\* The statement names function declarations; it does not say what the destination of an annotated
-\* *method* would be called.  Trees with such a method are outside the judged domain (bag check off).
-FileInDomain(f) == ~IsSource(f) \/ \A i \in 1..Len(f.decls) : f.decls[i].kind = "method" => Annotations(f.decls[i].doc) = <<>>
+\* one entry per annotation of a function declaration, in source order.  A method declaration
+\* (d.recv = pointer or value receiver type) is either not a function declaration at all (Go's grammar: annotations on
+\* non-functions are ignored) or a function whose fully qualified name is importpath.<recv>.Name (pointer form in parentheses with a star) /
+\* importpath.T.Name; the statement admits both readings and the monitor accepts either, tree-wide.
+DstOf(dir, d) == IF d.kind = "method" THEN ImportPath(dir) \o "." \o d.recv \o "." \o d.name ELSE Dst(dir, d.name)
+DeclEntries(dir, d, kind) == IF d.kind = kind
+                             THEN LET a == Annotations(d.doc) IN [i \in 1..Len(a) |-> <<a[i][2], DstOf(dir, d)>>]
+                             ELSE <<>>
+RECURSIVE ConcatDecls(_, _, _, _)
+ConcatDecls(dir, ds, i, kind) == IF i > Len(ds) THEN <<>> ELSE DeclEntries(dir, ds[i], kind) \o ConcatDecls(dir, ds, i + 1, kind)
+FileEntriesOf(f, kind) == IF IsSource(f) THEN ConcatDecls(f.dir, f.decls, 1, kind) ELSE <<>>
+FileEntries(f) == FileEntriesOf(f, "func")
 
 BagOf(q) == [x \in Range(q) |-> Cardinality({i \in 1..Len(q) : q[i] = x})]
 CountIn(q, x) == Cardinality({i \in 1..Len(q) : q[i] = x})
 Missing(exp, out) == {x \in Range(exp) : CountIn(out, x) < CountIn(exp, x)}
 Extra(exp, out)   == {x \in Range(out) : CountIn(out, x) > CountIn(exp, x)}
 
-S0 == [exp |-> <<>>, dom |-> TRUE, nb |-> 0, first |-> <<>>]
+S0 == [exp |-> <<>>, expm |-> <<>>, nb |-> 0, first |-> <<>>]
 
 \* cs: sequence of <<property, failed?, explanation>>
-MonFile(s, e) == [s |-> [s EXCEPT !.exp = @ \o FileEntries(e.f), !.dom = @ /\ FileInDomain(e.f)], cs |-> <<>>]
+MonFile(s, e) == [s |-> [s EXCEPT !.exp = @ \o FileEntriesOf(e.f, "func"), !.expm = @ \o FileEntriesOf(e.f, "method")], cs |-> <<>>]
+TableOk(s, out) == \/ BagOf(out) = BagOf(s.exp)
+                   \/ (s.expm # <<>> /\ BagOf(out) = BagOf(s.exp \o s.expm))
 
 MonBuild(s, e) ==
   [s  |-> [s EXCEPT !.nb = @ + 1, !.first = IF s.nb = 0 /\ e.res = "ok" THEN e.out ELSE @],
    cs |-> << <<"C20", e.res # "ok", <<"redirect discovery did not complete", e.res>> >>,
-             <<"C20", e.res = "ok" /\ s.dom /\ BagOf(e.out) # BagOf(s.exp),
+             <<"C20", e.res = "ok" /\ ~TableOk(s, e.out),
                       <<"table is not one entry per annotation of a function declaration",
-                        "missing", Missing(s.exp, e.out), "unexpected", Extra(s.exp, e.out)>> >>,
+                        "missing", Missing(s.exp, e.out), "unexpected", Extra(s.exp, e.out),
+                        "alternatively, for annotated methods", s.expm>> >>,
              <<"C20", e.res = "ok" /\ s.nb > 0 /\ e.out # s.first,
                       <<"same tree, different table order", "build", s.nb + 1, "first", s.first, "now", e.out>> >> >>]
 
